@@ -301,6 +301,13 @@ class Report:
         self.prop = prop
         self.tier = tier
         self.t0 = time.time()
+        if os.path.isdir(REPLAYS):      # replay files of earlier runs of this property are stale
+            for f in os.listdir(REPLAYS):
+                if f.startswith(prop + "-"):
+                    try:
+                        os.remove(os.path.join(REPLAYS, f))
+                    except OSError:
+                        pass
         self.violations = []      # (sig, detail)
         self.known = {}           # what -> count
         self.findings = Findings()
